@@ -101,11 +101,12 @@ def mk_str(s):
 
 
 class Obligation:
-    __slots__ = ("name", "kind", "pc", "goal", "props", "func", "where", "text")
+    __slots__ = ("name", "kind", "pc", "goal", "props", "func", "where", "text", "nglob")
 
-    def __init__(self, name, kind, pc, goal, props, func, where, text):
+    def __init__(self, name, kind, pc, goal, props, func, where, text, nglob=0):
         self.name, self.kind, self.pc, self.goal = name, kind, pc, goal
         self.props, self.func, self.where, self.text = tuple(props), func, where, text
+        self.nglob = nglob      # pc[:nglob] are the global well-typedness facts (a VC without them is tried first)
 
     def key(self):
         return (self.name, tuple(p.get_id() for p in self.pc), self.goal.get_id())
@@ -403,7 +404,7 @@ class Engine:
             self.st.glob.append(f)
 
     # ----------------------------------------------------------------- obligations
-    def oblige(self, label, kind, goal, props=(), text=""):
+    def oblige(self, label, kind, goal, props=(), text="", needs=None, own=None):
         if self.spec_depth and kind == "safety":
             return
         g = z3.simplify(goal)
@@ -413,12 +414,17 @@ class Engine:
             parts = split_goal(goal)
             if len(parts) > 12:
                 parts = [goal]
-            pc_now = list(self.st.glob) + list(self.st.pc)
+            pc = self.st.pc
+            if needs is not None:
+                tags = getattr(self, "pc_tags", {})
+                keep = set(needs) | ({own} if own else set())
+                pc = [f for f in pc if tags.get(f.get_id()) is None or tags[f.get_id()] in keep]
+            pc_now = list(self.st.glob) + list(pc)
             for k_, part in enumerate(parts):
                 if z3.is_true(z3.simplify(part)):
                     continue
                 nm = name if len(parts) == 1 else "%s #%d/%d" % (name, k_ + 1, len(parts))
-                self.obligations.append(Obligation(nm, kind, pc_now, part, props or self.cur_props, self.cur_func, where, text))
+                self.obligations.append(Obligation(nm, kind, pc_now, part, props or self.cur_props, self.cur_func, where, text, len(self.st.glob)))
         else:
             self.trivial += 1
         self.st.pc.append(goal)
@@ -506,9 +512,10 @@ class Engine:
             else:
                 self.assume(OR(v.t == NONE, al))
         elif k in ("list", "deque", "set", "dict"):
-            self.assume(AND(v.t != NONE, al))
+            # containers are objects of no declared class (class ids start at 1): they never alias an instance
+            self.assume(AND(v.t != NONE, al, self.typeof(v.t) == 0))
         elif k == "seq":
-            self.assume(v.t != NONE)
+            self.assume(AND(v.t != NONE, self.typeof(v.t) == 0))
         elif k == "enum":
             vals = self.enum_values(t_.args[0])
             if vals:
@@ -567,6 +574,8 @@ class Engine:
         r = self.fresh(base, Ref)
         am = self.alloc_map()
         self.assume(AND(r != NONE, z3.Not(z3.Select(am, r))))
+        if getattr(t_, "kind", None) in ("list", "deque", "set", "dict", "seq"):
+            self.assume(self.typeof(r) == 0)
         self.hset("$alloc", z3.Store(am, r, z3.BoolVal(True)))
         return r
 
